@@ -28,10 +28,67 @@ def showSt (s : St) : String := s!"{s.session}/{match s.sec with | none => "n" |
 def showKind : Kind → String
   | .dsc t => s!"dsc{t}" | .sa t => s!"sa{t}" | .reset => "reset" | .f186 s => s!"f186:{s}" | .other => "other"
 
+def hexStr (s : String) : Option String := do
+  if s == "-" then pure "" else
+  let bs ← parseHex s
+  pure (String.ofList (bs.map fun b => Char.ofNat b.toNat))
+
+/-- `z` | `n<int>` | `s<hex of the ASCII text>` | `j<hex of the JSON text>` -/
+def parseJVal (s : String) : Option JVal :=
+  match s.toList with
+  | ['z'] => some .null
+  | 'n' :: '-' :: r => (String.ofList r).toNat?.map fun n => .num (-(n : Int))
+  | 'n' :: r => (String.ofList r).toNat?.map fun n => .num n
+  | 's' :: r => (hexStr (String.ofList r)).map .str
+  | 'j' :: r => (hexStr (String.ofList r)).map .json
+  | _ => none
+
+def parseKV (s : String) : Option (String × JVal) :=
+  match s.splitOn "=" with
+  | [k, v] => do pure (← hexStr k, ← parseJVal v)
+  | _ => none
+
+def parseOptName (s : String) : Option (Option String) := if s == "-" then some none else (hexStr s).map some
+
+/-- `<name|->/<k=v,k=v|->`  (`-` for the properties: no property selector; `+` : the empty dictionary) -/
+def parseSel (s : String) : Option Selector :=
+  match s.splitOn "/" with
+  | [n, ps] => do
+    let n ← parseOptName n
+    let ps ← (if ps == "-" then some none else if ps == "+" then some (some []) else (parseList parseKV "," ps).map some)
+    pure ⟨n, ps⟩
+  | _ => none
+
+/-- `<runid>/<name|->/<k=v,...|+>` -/
+def parseRun (s : String) : Option (Nat × RunInfo) :=
+  match s.splitOn "/" with
+  | [i, n, ps] => do
+    let ps ← (if ps == "+" then some [] else parseList parseKV "," ps)
+    pure (← i.toNat?, ⟨← parseOptName n, ps⟩)
+  | _ => none
+
+def parseDbRow (runs : List (Nat × RunInfo)) (s : String) : Option DbRow :=
+  match s.splitOn ":" with
+  | [id, run, sess, sec, req, resp] => do
+    let sec ← (if sec == "n" then some none else sec.toNat?.map some)
+    let rid ← run.toNat?
+    let ri ← (runs.find? (·.1 == rid)).map (·.2)
+    pure ⟨← id.toNat?, ri, ⟨← sess.toNat?, sec⟩, ← parseHex req, ← parseOptHex resp⟩
+  | _ => none
+
 def step (line : String) : String :=
   match line.splitOn "|" with
   | [head, tail] =>
     match words head, words tail with
+    | ["replaydb", sel, runs, rows], [reqs] =>
+      match parseSel sel, parseList parseRun ";" runs with
+      | some sel, some runs =>
+        match parseList (parseDbRow runs) ";" rows, parseList parseHex "," reqs with
+        | some db, some reqs =>
+          ",".intercalate ((replayDb sel db reqs).map showOpt) ++ " sel=" ++
+            "".intercalate (runs.map fun r => if selects sel r.2 then "1" else "0")
+        | _, _ => "bad-op"
+      | _, _ => "bad-op"
     | ["replay", rows], [reqs] =>
       match parseList parseRow ";" rows, parseList parseHex "," reqs with
       | some rows, some reqs => ",".intercalate ((replayAll rows {} reqs).map showOpt)
